@@ -7,6 +7,7 @@ package main
 import (
 	"fmt"
 	"strings"
+	"time"
 
 	"verifharness/vh"
 )
@@ -42,6 +43,15 @@ type TxtRules struct {
 	Min, Max   *string
 	XMin, XMax *bool
 }
+
+// TimestampField.Rules: bounds in whole seconds
+type TSRules struct {
+	Min, Max   *int64
+	XMin, XMax *bool
+}
+
+// ObjectField.Rules
+type ObjRules struct{ Min, Max *uint64 }
 
 type KFmt int
 
@@ -102,6 +112,10 @@ type FTy struct {
 	SFormat *string  // StringField.format
 	AnyOD   bool     // AnyField.only_defined
 	AnyT    []string // AnyField.types
+	FloatR  bool      // FloatField.rules present (minimum = 1.5): the compiler refuses them
+	TS      *TSRules  // TimestampField.rules
+	ObjR    *ObjRules // ObjectField.rules
+	OneofR  bool      // OneofField.rules present (an empty message; only the source AST can say it)
 }
 
 type PKind int
@@ -288,19 +302,27 @@ func (t FTy) Coq() string {
 		}
 		return fmt.Sprintf("(TKey %s %s %s)", f, t.Entity.Coq(), t.List.Coq())
 	case TFloat:
-		return fmt.Sprintf("(TFloat %s %s)", vh.BoolTerm(t.F64), t.List.Coq())
+		return fmt.Sprintf("(TFloat %s %s %s)", vh.BoolTerm(t.F64), vh.BoolTerm(t.FloatR), t.List.Coq())
 	case TDate:
 		return fmt.Sprintf("(TDate %s %s)", t.Txt.Coq(), t.List.Coq())
 	case TDecimal:
 		return fmt.Sprintf("(TDecimal %s %s)", t.Txt.Coq(), t.List.Coq())
 	case TTimestamp:
-		return fmt.Sprintf("(TTimestamp %s)", t.List.Coq())
+		r := "None"
+		if t.TS != nil {
+			r = fmt.Sprintf("(Some (TSR %s %s %s %s))", optZ(t.TS.Min), optZ(t.TS.Max), optB(t.TS.XMin), optB(t.TS.XMax))
+		}
+		return fmt.Sprintf("(TTimestamp %s %s)", r, t.List.Coq())
 	case TAny:
 		return fmt.Sprintf("(TAny %s %s %s)", vh.BoolTerm(t.AnyOD), strList(t.AnyT), t.List.Coq())
 	case TObject:
-		return fmt.Sprintf("(TObject %s)", vh.BoolTerm(t.Flatten))
+		r := "None"
+		if t.ObjR != nil {
+			r = fmt.Sprintf("(Some (OBR %s %s))", optN(t.ObjR.Min), optN(t.ObjR.Max))
+		}
+		return fmt.Sprintf("(TObject %s %s)", vh.BoolTerm(t.Flatten), r)
 	case TOneof:
-		return fmt.Sprintf("(TOneof %s)", t.List.Coq())
+		return fmt.Sprintf("(TOneof %s %s)", vh.BoolTerm(t.OneofR), t.List.Coq())
 	}
 	panic("unknown type kind")
 }
@@ -472,6 +494,9 @@ func (t FTy) j5s(enum EnumEnv, prefix string) (tag string, lines []string) {
 		if t.F64 {
 			tag = "float:FLOAT64"
 		}
+		if t.FloatR {
+			add("rules.minimum = 1.5")
+		}
 	case TDate, TDecimal:
 		tag = "date"
 		if t.Kind == TDecimal {
@@ -493,6 +518,20 @@ func (t FTy) j5s(enum EnumEnv, prefix string) (tag string, lines []string) {
 		}
 	case TTimestamp:
 		tag = "timestamp"
+		if r := t.TS; r != nil {
+			if r.Min != nil {
+				add("rules.minimum = %s", q(time.Unix(*r.Min, 0).UTC().Format(time.RFC3339)))
+			}
+			if r.Max != nil {
+				add("rules.maximum = %s", q(time.Unix(*r.Max, 0).UTC().Format(time.RFC3339)))
+			}
+			if r.XMin != nil {
+				add("rules.exclusiveMinimum = %v", *r.XMin)
+			}
+			if r.XMax != nil {
+				add("rules.exclusiveMaximum = %v", *r.XMax)
+			}
+		}
 	case TAny:
 		tag = "any"
 		if t.AnyOD {
@@ -505,6 +544,14 @@ func (t FTy) j5s(enum EnumEnv, prefix string) (tag string, lines []string) {
 		tag = "object:Bar"
 		if t.Flatten {
 			add("flatten = true")
+		}
+		if r := t.ObjR; r != nil {
+			if r.Min != nil {
+				add("rules.minProperties = %d", *r.Min)
+			}
+			if r.Max != nil {
+				add("rules.maxProperties = %d", *r.Max)
+			}
 		}
 	case TOneof:
 		tag = "oneof:Choice"
